@@ -106,6 +106,33 @@ func Fixed() []*Grammar {
 			P("Stmt", Al(Call(A(1), A(3)), `"if"`, "id", `"then"`, "Stmt"), Al(Call(A(1), A(3), A(5)), `"if"`, "id", `"then"`, "Stmt", `"else"`, "Stmt"), Al(Call(A(0)), "id")),
 		}})
 
+	// srml: the same conflict, every action spread over several lines (whatever the generator
+	// writes about the losing action must stay inside a comment or a string)
+	{
+		ml := func(tag string) ArgRef {
+			return K("`"+tag+"\n  second line */ \" // `", tag+"\n  second line */ \" // ")
+		}
+		add(&Grammar{ID: "srml", Ambiguous: true, Flags: []string{"-a"}, Seps: wsSeps,
+			Lex: append(letters(),
+				LexDef{Kind: LexToken, Name: "id", Pattern: `_letter {_letter | _digit}`, Samples: []string{"a", "bc", "x1"}},
+				ws()),
+			Prods: []*Prod{
+				P("Stmt", Al(Call(A(1), ml("short"), A(3)), `"if"`, "id", `"then"`, "Stmt"), Al(Call(A(1), A(3), ml("long"), A(5)), `"if"`, "id", `"then"`, "Stmt", `"else"`, "Stmt"), Al(Call(A(0), ml("leaf")), "id")),
+			}})
+	}
+
+	// unreachable: productions no sentence uses, one of them the only user of a header import
+	add(&Grammar{ID: "unreachable", GoccOnly: true, Seps: wsSeps, HeaderImports: []string{`"strconv"`},
+		Lex: append(letters(),
+			LexDef{Kind: LexToken, Name: "used", Pattern: `'u' {_digit}`, Samples: []string{"u", "u12"}},
+			LexDef{Kind: LexToken, Name: "alpha", Pattern: `'a' _digit`, Samples: []string{"a1"}},
+			ws()),
+		Prods: []*Prod{
+			P("S", Al(Call(A(0)), "used"), Al(Call(A(0), A(2)), "S", `";"`, "used")),
+			P("Orphan", Al(Action{Kind: ActRaw, Raw: `strconv.Itoa(len(X)), nil`}, "alpha"), Al(Call(A(0), A(1)), "Orphan", "Kin")),
+			P("Kin", Al(Call(T(0)), "alpha", `"!"`)),
+		}})
+
 	// rr: reduce/reduce conflict, needs -a
 	add(&Grammar{ID: "rr", Ambiguous: true, Flags: []string{"-a"}, Seps: wsSeps,
 		Lex: []LexDef{ws()},
@@ -226,15 +253,19 @@ func Fixed() []*Grammar {
 	// states, and one alternative of 42 symbols (size limits of table entries)
 	{
 		var items []*Alt
+		var cmds []*Prod
 		for i := 0; i < 258; i++ {
 			kw := fmt.Sprintf("k%03d", i)
+			nt := fmt.Sprintf("C%03d", i)
+			// one nonterminal per keyword (more than 256 nonterminals: goto columns above 255)
+			items = append(items, Al(none, nt))
 			switch i % 3 {
 			case 0:
-				items = append(items, Al(Call(T(1)), `"`+kw+`"`, "id"))
+				cmds = append(cmds, P(nt, Al(Call(T(1)), `"`+kw+`"`, "id")))
 			case 1:
-				items = append(items, Al(Call(T(0), T(1)), `"`+kw+`"`, "id"))
+				cmds = append(cmds, P(nt, Al(Call(T(0), T(1)), `"`+kw+`"`, "id")))
 			default:
-				items = append(items, Al(Call(A(1), T(2)), `"`+kw+`"`, "id", "id"))
+				cmds = append(cmds, P(nt, Al(Call(A(1), T(2)), `"`+kw+`"`, "id", "id")))
 			}
 		}
 		wide := []string{`"wide"`}
@@ -247,10 +278,10 @@ func Fixed() []*Grammar {
 			Lex: append(letters(),
 				LexDef{Kind: LexToken, Name: "id", Pattern: `('x' | 'y' | 'z') {_letter | _digit}`, Samples: []string{"x", "yy", "z9q", "xK"}},
 				ws()),
-			Prods: []*Prod{
+			Prods: append([]*Prod{
 				P("Items", Al(Call(A(0)), "Item"), Al(Call(A(0), A(1)), "Items", "Item")),
 				{Head: "Item", Alts: items},
-			}})
+			}, cmds...)})
 	}
 
 	// longalt: a 12-symbol alternative ($10, $11 next to $1)
